@@ -39,6 +39,8 @@ DEFAULT_PROFILE = {
   "unhashable_key": 1.5,
   "agg_unsorted": 1,
   "lookup_chain": 1,
+  "then_fail": 3,
+  "hide_field": 0.5,
   "remove_readd": 2,
   "add_empty_column": 2,
   "stale_undo": 1,
@@ -75,6 +77,7 @@ class World(object):
     self.sections = doc.meta("_grist_Views_section")
     self.views = doc.meta("_grist_Views")
     self.pages = doc.meta("_grist_Pages")
+    self.fields = doc.meta("_grist_Views_section_field")
     self.fields = doc.meta("_grist_Views_section_field")
 
   def user_tables(self, summary=False):
@@ -1072,6 +1075,16 @@ class Gen(object):
     return ([["AddColumn", t["tableId"], name, {"type": "Ref:%s" % st["tableId"], "isFormula": False}],
              ["SetDisplayFormula", t["tableId"], None, next_ref, "$%s.%s" % (name, self.rng.choice(vcs)["colId"])]],)
 
+  def g_hide_field(self, w):
+    """Hide a column in a widget (remove the view field), preferring group-by fields of summary widgets."""
+    widgets = set(s_["id"] for s_ in w.sections if s_.get("parentId"))      # sections placed on a page
+    fs = [f for f in w.fields if f.get("parentId") in widgets and f.get("colRef")]
+    if not fs:
+      return None
+    gb = [f for f in fs if w.cols_by_ref.get(f["colRef"], {}).get("summarySourceCol")]
+    f = self.rng.choice(gb if gb and self.rng.random() < 0.7 else fs)
+    return ["RemoveRecord", "_grist_Views_section_field", f["id"]]
+
   def g_remove_summary_widget(self, w):
     secs, _refs = self._summary_sections(w)
     if not secs:
@@ -1215,6 +1228,40 @@ class Gen(object):
     a = self.rng.choice(fc)
     b = self.rng.choice(fc)
     return ["ModifyColumn", t["tableId"], a["colId"], {"formula": "$%s" % b["colId"]}]
+
+  def g_then_fail(self, w):
+    """Any other kind's action(s) followed, in the same bundle, by an action that fails: the bundle is
+    rejected AFTER the earlier actions were applied, so the rollback of every kind of action is exercised
+    (structural ones in particular: links, summaries, renames, type changes)."""
+    rng = self.rng
+    kinds = [k for k, wt in self.profile.items() if wt > 0 and k not in ("then_fail", "malformed", "undo_earlier",
+                                                                          "redo_stored", "stale_undo")]
+    structural = [k for k in ("reverse_column", "summary", "update_summary", "rename_column", "rename_table",
+                              "modify_type", "remove_column", "remove_table", "add_ref_column", "display_formula",
+                              "add_rule", "duplicate_table", "to_formula", "to_data", "detach_summary",
+                              "remove_view_stuff", "type_change_write") if self.profile.get(k, 0) > 0]
+    for _ in range(8):
+      kind = rng.choice(structural if structural and rng.random() < 0.7 else kinds)
+      if rng.random() < 0.25:
+        kind = "reverse_column"         # link creation: several cooperating schema doc actions
+      ua = getattr(self, "g_" + kind)(w)
+      if ua is None and kind == "reverse_column":
+        # no reference column yet: create one and link it in the same (failing) bundle
+        t0 = self._table(w)
+        if t0:
+          name = self.new_name()
+          ua = ([["AddColumn", t0["tableId"], name, {"type": "%s:%s" % (rng.choice(["Ref", "RefList"]), t0["tableId"]),
+                                                        "isFormula": False}],
+                 ["AddReverseColumn", t0["tableId"], name]],)
+      if ua is None:
+        continue
+      uas = list(ua[0]) if isinstance(ua, tuple) else [ua]
+      t = self._table(w)
+      tid = t["tableId"] if t else "T1"
+      bad = rng.choice([["RemoveColumn", tid, "no_such_column_xyz"], ["AddRecord", "NoSuchTable", None, {}],
+                        ["UpdateRecord", tid, 999999, {}], ["NoSuchAction", 1]])
+      return (uas + [bad],)
+    return None
 
   def g_malformed(self, w):
     rng = self.rng
